@@ -1,4 +1,4 @@
-import CardVerif.Model.GinMelds
+import CardModel.Model.GinMelds
 /-!
 # The gin turn machine
 
